@@ -1,0 +1,40 @@
+//go:build verif
+
+// Contracts for package ast, checked by /verif/gocv (comment-only file; no code).
+
+package ast
+
+// Structural equality of terms as an abstract relation (refined per concrete type under C08).
+//@ spec func termEq(a Term, b Term) bool
+// Equivalence relation (assumed here; the Constant case is proved from Constant.Equals under C08).
+//@ axiom termEqRefl(t Term): termEq(t, t)
+//@   auto
+//@ axiom termEqSym(a Term, b Term): termEq(a, b) == termEq(b, a)
+//@   auto
+//@ axiom termEqTrans(a Term, b Term, c Term): termEq(a, b) && termEq(b, c) ==> termEq(a, c)
+//@   auto
+
+//@ func (self BaseTerm) Equals(u)
+//@   pure
+//@   ensures result == termEq(self, u)
+
+//@ func (self BaseTerm) Hash()
+//@   pure
+
+//@ func (self Term) Equals(u)
+//@   pure
+//@   ensures result == termEq(self, u)
+
+//@ spec func atomEq(a Atom, b Atom) bool =
+//@      a.Predicate == b.Predicate && len(a.Args) == len(b.Args) && (forall i int :: 0 <= i && i < len(a.Args) ==> termEq(a.Args[i], b.Args[i]))
+
+//@ func (a Atom) Equals(u)
+//@   pure
+//@   ensures result == (u is Atom && atomEq(a, u as Atom))
+//@   loop 1 invariant 0 <= rangeindex + 1 && rangeindex + 1 <= len(a.Args) && len(a.Args) == len(o.Args)
+//@   loop 1 invariant forall i int :: 0 <= i && i < rangeindex + 1 ==> termEq(a.Args[i], o.Args[i])
+
+// Hash is a deterministic function of the atom (its formula is deliberately not specified).
+//@ func (a Atom) Hash()
+//@   pure
+//@   trusted
